@@ -291,6 +291,16 @@ def symbols_in(t) -> List[Tuple[str, str]]:
     return out
 
 
+def as_symlist(v):
+    """The list-valued grammar symbol a field holds: `p[i]` itself or a copy of it (`[*p[i]]`, `list(p[i])`); else None."""
+    if isinstance(v, tuple) and v[:1] == ('symlist',):
+        return v
+    if isinstance(v, tuple) and v[:1] == ('list',) and len(v) == 2 and isinstance(v[1], tuple) and v[1][:1] == ('star',) \
+            and isinstance(v[1][1], tuple) and v[1][1][:1] == ('symlist',):
+        return v[1][1]
+    return None
+
+
 def new_nodes(t) -> List[Tuple[str, Tuple]]:
     """All ('new', cls, fields) sub-terms."""
     out = []
